@@ -11,7 +11,9 @@ Ties (all on REAL compiled artefacts, built from the repo's working tree by harn
      functions / methods of the imported package `lib` (instantiated with types of package main whose methods yield only
      through chains of named calls declared callers-first) — vs `GV.Blocking.blocking` (least fixed point) on the
      generated whole-program call graph;
-  I4 the variables boxed by `x = [x];` in every generated function of P and P' vs `GV.Escape.boxed` (escape-analysis rule).
+  I4 the variables boxed by `x = [x];` in every generated function of P and P' vs `GV.Escape.boxed` (escape-analysis rule);
+  I5 the guard at the head of the real `$callDeferred` (prelude under Node, asleep goroutine, deferStack depth 1-4, own list
+     at every position or absent) vs `GV.RetDefer.guardAnywhere`.
 """
 import json
 import re
@@ -25,7 +27,8 @@ THEOREMS = ["propagate_lfp", "propagate_order_irrelevant", "flatten_labels_nodup
             "panic_resume_counterexample", "panic_resume_partial", "flatten_correct_defer_partial", "callDefF_sound",
             "andor_flat", "args_order", "captured_cells_shared", "captured_write_visible", "boxing_rule_sufficient",
             "boxing_header_skipped_counterexample", "args_order_all", "args_order_first_only_counterexample",
-            "stops_early_underapprox", "partial_iteration_unsound"]
+            "stops_early_underapprox", "partial_iteration_unsound", "suspend_saves_all_defer_frames",
+            "suspend_top_only_counterexample"]
 
 MODV = 1009
 ZERO = 12          # pseudo variable: constant 0
@@ -483,6 +486,13 @@ class Gen:
             body.append(("DEFER", self.new_closure(dfn, must_yield=(i == 0 or r.random() < 0.6))))
             if r.random() < 0.5:
                 body.append(("A", self.new_act(dst=r.choice([0, 1, 2]), x=r.choice([0, 1, 2]), y=ZERO, k=r.randrange(1, 9))))
+        # several frames with PENDING defers live across one suspension: call the next D function (which registers its
+        # own defers and then suspends in its body) while this frame's defers are pending; suspend here as well
+        later = [j for j in range(fi + 1, nf) if self.plan[j]]
+        if later and r.random() < 0.85:
+            body.append(("C", self.new_dfncall(later[0])))
+        if r.random() < 0.6:
+            body.append(("C", self.new_yield()))
         body += self.stmts(ctx, r.randrange(0, 4), tail_branch=False)
         if dfn["panics"] and r.random() < 0.5:
             self.count("dpanic")
@@ -498,7 +508,10 @@ def gen_program(rng, size, mp=None):
         g.mp = True
         g.wchains = [rng.randrange(2, 5) for _ in range(rng.randrange(1, 3))]
     nf = rng.randrange(1, 5)
-    g.plan = [fi > 0 and rng.random() < 0.45 for fi in range(nf)]
+    if nf >= 3 and rng.random() < 0.3:
+        g.plan = [fi > 0 for fi in range(nf)]          # a chain of 2-3 nested functions that all hold pending defers
+    else:
+        g.plan = [fi > 0 and rng.random() < 0.45 for fi in range(nf)]
     for fi in range(nf):
         if g.plan[fi]:
             g.gen_dfn(fi, nf)
@@ -1780,6 +1793,11 @@ def run(tier, seed):
     # replay of the recorded defect (and its non-suspending twin, which must behave)
     run_batch(chk, [witness_panic_program()], tier, chk.rng, "witpanic", do_ities=False, scheds_override=["0", "1"])
     replay_stack_witness(chk)
+    # I5: the guard at the head of the REAL `$callDeferred` (prelude under Node) for an asleep goroutine, deferStack
+    # depth 1-4, own list at every position (bottom / middle / top) or absent, vs GV.RetDefer.guardAnywhere
+    gops = ["guard %d %s" % (d, pos) for d in range(1, 5) for pos in [str(i) for i in range(d)] + ["absent"]]
+    chk.compare("calldeferred-guard", ["c02guard " + o for o in gops], C.run_node(["c02guard " + o for o in gops]),
+                C.run_driver("C02", ["c02 " + o for o in gops]), kind=lambda o, c: "guard:" + c)
     unknown = [m for m in chk.mismatches if chk.known_match(m.get("signature")) is None]
     if chk.tie_breaks and not unknown and tier == "quick":
         # an internal tie broke: widen the observable-level search before reporting
